@@ -336,7 +336,7 @@ def run_real(text):
     return flat, sorted(bars), t, conv, mod
 
 
-HEADER = "From Snax Require Import Base.Prelude Model.MultiCore Model.C13SyncBarrier.\n"
+HEADER = "From Snax Require Import Base.Prelude Model.MultiCore Model.C13SyncBarrier Model.C13Paths.\n"
 
 
 def nontrivial(flat):
@@ -397,6 +397,9 @@ Definition l2_eval (c : list opinfo * list Z * list rstmt) : list Z :=
   let races := flat_map (fun o => all_races (rrunl o t [])) [orc2; orc3; orc 0; orc 1; orc 2; orc 5] in
   let cl := map (fun xy => let a := hd 0 (o_name (fst xy)) in let b := hd 0 (o_name (snd xy)) in
                        (classify_pair2 flat bars (list_eqb Z.eqb (tl (o_name (fst xy))) (tl (o_name (snd xy)))) a b, a, b)) races in
+  (* first entry: 1 = every conflicting pair of static ops is structurally guarded (then, by
+     C13_all_guarded_phases_drf, NO path of the program has a race: a sampled race would contradict it) *)
+  (if all_guarded t then 1 else 0) ::
   match find (fun r => fst (fst r) =? 0) cl with
   | Some (c0, a, b) => [a; b; c0]
   | None => match cl with (c0, a, b) :: _ => [a; b; c0] | [] => [] end
@@ -474,11 +477,20 @@ def run_l2(ctx, texts_in):
         # `[]` rows print as [] : handle by splitting on ';' at depth 1
         rows = split_rows(body)
         for ci, row in enumerate(rows):
+            text, where = meta[si * SH + ci]
+            certified = bool(row and row[0] == 1)
+            ctx.extra["L2_trees"] = ctx.extra.get("L2_trees", 0) + 1
+            ctx.extra["L2_trees_all_pairs_guarded"] = ctx.extra.get("L2_trees_all_pairs_guarded", 0) + (1 if certified else 0)
+            row = row[1:]
             if row:
                 a, b, cls = row
-                text, where = meta[si * SH + ci]
-                fails.append({"what": f"ops #{a} and #{b} (different cores) conflict with no barrier between them on some path {where}",
-                              "ops": [a, b], "text": text, "klass": KLASS[cls]})
+                if certified:
+                    fails.append({"what": f"ops #{a} and #{b} race on a sampled path although every conflicting pair is structurally guarded {where} "
+                                          "(contradicts C13_all_guarded_phases_drf: converter / semantics inconsistent)",
+                                  "ops": [a, b], "text": text, "klass": None})
+                else:
+                    fails.append({"what": f"ops #{a} and #{b} (different cores) conflict with no barrier between them on some path {where}",
+                                  "ops": [a, b], "text": text, "klass": KLASS[cls]})
     return fails
 
 
